@@ -97,6 +97,18 @@ var directives = []directive{
 
 	// C10: the route pattern validator, into its own file (GenParse.v); fuel: the loop `for i < len(url)` advances i on every path
 	{Name: "parseRoute", Pkg: "fox", Func: "Router.parseRoute", File: "GenParse.v", Fuel: map[int]string{1: "S (List.length url)"}},
+
+	// GenWild.v: parseWildcard (node.go; a local []param built by append: structs.go; the loop `for i < len(segment)` advances i
+	// on every path), isBlacklistedHeader with the table it ranges over (recovery.go, http_consts.go; strings.EqualFold: fold.go),
+	// netutil.SplitHostZone (C18)
+	{Name: "parseWildcard", Pkg: "fox", Func: "parseWildcard", File: "GenWild.v", Fuel: map[int]string{1: "S (List.length segment)"}},
+	{Name: "blacklistedHeader", Pkg: "fox", Func: "blacklistedHeader", Kind: kVar, File: "GenWild.v"},
+	{Name: "isBlacklistedHeader", Pkg: "fox", Func: "isBlacklistedHeader", File: "GenWild.v"},
+	{Name: "SplitHostZone", Pkg: "netutil", Func: "SplitHostZone", File: "GenWild.v"},
+	// C08 / C18: the escaping of the redirect Location (append on a local []byte, strconv.AppendInt: append.go) and
+	// clientip's matched-quote trimmer, into GenEsc.v
+	{Name: "hexEscapeNonASCII", Pkg: "fox", Func: "hexEscapeNonASCII", File: "GenEsc.v"},
+	{Name: "trimMatchedEnds", Pkg: "clientip", Func: "trimMatchedEnds", File: "GenEsc.v"},
 }
 
 // extraFiles: the generated files besides out= (same directory), in a fixed order
@@ -167,7 +179,9 @@ func (p *pkgInfo) text(n ast.Node) (txt string, file string, l0, l1 int) {
 	a, b := p.fset.Position(n.Pos()), p.fset.Position(n.End())
 	src := p.src[a.Filename]
 	rel, _ := filepath.Rel(p.dir, a.Filename)
-	if p.name != "fox" {
+	if p.name == "clientip" {
+		rel = "clientip/" + rel
+	} else if p.name != "fox" {
 		rel = "internal/" + p.name + "/" + rel
 	}
 	return string(src[a.Offset:b.Offset]), rel, a.Line, b.Line
@@ -293,6 +307,7 @@ func main() {
 	pkgs := map[string]*pkgInfo{
 		"netutil": loadPkg(fset, imp, filepath.Join(repo, "internal", "netutil"), "netutil", "github.com/tigerwill90/fox/internal/netutil"),
 		"fox":     loadPkg(fset, imp, repo, "fox", "github.com/tigerwill90/fox"),
+		"clientip": loadPkg(fset, imp, filepath.Join(repo, "clientip"), "clientip", "github.com/tigerwill90/fox/clientip"),
 	}
 
 	refused := 0
